@@ -470,6 +470,10 @@ class Classifier:
                         m_ = re.match(r"^\((Lt|Ge|Gt|Le|Eq|Ne)\((.*)\)\)$", a)
                         if m_:
                             neg.add("(%s(%s))" % (NEG[m_.group(1)], m_.group(2)))
+                            # for an unsigned quantity `x != 0` / `x > 0` also contradicts `x <= 0` and `0 >= x`
+                            mz_ = re.match(r"^(len\(.*\)),const:0$", m_.group(2))
+                            if mz_ and m_.group(1) in ("Ne", "Gt"):
+                                neg.update(["(Le(%s,const:0))" % mz_.group(1), "(Ge(const:0,%s))" % mz_.group(1), "(Eq(%s,const:0))" % mz_.group(1), "(Eq(const:0,%s))" % mz_.group(1)])
                         m_ = re.match(r"^(.*) is (not )?(\S+)$", a)
                         if m_:
                             neg.add("%s is %s%s" % (m_.group(1), "" if m_.group(2) else "not ", m_.group(3)))
@@ -479,6 +483,19 @@ class Classifier:
                             neg.add("!" + a)
                     if any(a in neg for a in norm_atoms(own)):
                         auto = ("guarded", "the assertion repeats a test that holds where it starts; it cannot fire")
+            if auto is None and own:
+                # `let n = v.len(); .. debug_assert_eq!(v.len(), n)` in a function that never changes the length of v:
+                # the failing condition is `len(v) != len(v)`
+                for a in norm_atoms(own):
+                    m_ = re.match(r"^\((Ne|Lt|Gt)\((.+)\)\)$", a)
+                    ps_ = _split_top(m_.group(2)) if m_ else []
+                    if len(ps_) == 2 and ps_[0] == ps_[1]:
+                        mc_ = re.match(r"^len\((.*)\)$", ps_[0])
+                        if mc_:
+                            v_ = view(self.ctx, f)
+                            changes = [c_ for c_ in v_.calls.values() if c_.name.split("::")[-1] in ("push", "pop", "insert", "remove", "truncate", "resize", "clear", "extend", "extend_from_slice", "retain", "append", "drain", "split_off", "swap_remove", "dedup", "resize_with", "push_str") and c_.term["args"] and pr.operand(c_.term["args"][0]) == mc_.group(1)]
+                            if not changes:
+                                auto = ("guarded", "the assertion compares the length of %s with itself in a function that never changes it" % mc_.group(1)[:40])
             if auto is None:
                 # `debug_assert!(a && b)`: the panic is reached from the failing test of a or of b; each of them repeated
                 mk = self._marker_atoms(f, s)
